@@ -23,7 +23,7 @@ def scenario(ctx, i):
     for _ in range(ns):
         t = int(r.integers(3, 30))
         n = r.dirichlet(np.ones(C)) * t * r.uniform(0.5, 1)
-        mean = m + r.normal(size=(C, D)) * np.sqrt(v)
+        mean = m + r.normal(size=(C, D)) * np.sqrt(v) * (1e-3 if kind == "floor" and i % 8 == 3 else 1.0)
         var = v * r.uniform(0.3, 1.5, (C, D)) * (1e-6 if kind == "floor" else 1.0)
         sts.append(dict(n=n, f=mean * n[:, None], s=(var + mean**2) * n[:, None], t=t))
     if kind == "zero_in_some" and C > 1:
@@ -38,7 +38,7 @@ def scenario(ctx, i):
     T = r.normal(size=(C, D, R))
     sigma = v * r.uniform(0.5, 2, (C, D))
     parts = gen.random_composition(r, ns)
-    return dict(kind=kind, C=C, D=D, R=R, w=w, m=m, v=v, T=T, sigma=sigma, sts=sts, parts=parts, update_sigma=bool(i % 2 == 0),
+    return dict(kind=kind, C=C, D=D, R=R, w=w, m=m, v=v, T=T, sigma=sigma, sts=sts, parts=parts, update_sigma=True if kind == "floor" else bool((i // 4 + i) % 2 == 0),
                 floor=float(10 ** r.uniform(-10, -2)) if kind != "floor" else 1e-3, iters=int(r.integers(1, 4)), seed=int(r.integers(0, 10**6)))
 
 
@@ -174,6 +174,8 @@ def oracle(sc, iters=4):
             return {"sig": "ivector-step-raises", "what": repr(r)}
     if not (np.all(np.isfinite(iv.T)) and np.all(np.isfinite(iv.sigma))):
         return {"sig": "non-finite-ivector-parameters", "what": f"after {iters} iteration(s): sigma {np.asarray(iv.sigma).tolist()}", "iteration": iters}
+    if sc["update_sigma"] and np.any(np.asarray(iv.sigma) < sc["floor"]):
+        return {"sig": "sigma-below-floor", "what": f"iteration {iters}: {np.asarray(iv.sigma).tolist()} floor {sc['floor']}"}
     if np.all(seen_all):
         vals = [t for t in traj if t is not None]
         for a, b in zip(vals, vals[1:]):
